@@ -177,23 +177,12 @@ func (c *ctx) examine(je journalEntry, why string) (violated bool) {
 	switch {
 	case v.Infra != "":
 		c.r.Infra("solo run could not be started: %s", v.Infra)
-	case v.Killed && v.CPUSec >= cpuLimitSec*0.9:
-		// re-measure the same input with the other renamer: a diagnostic field for the finding's key
-		key["fast_with_minify_identifiers"] = false
-		if je.Key.Mode == "transform" && !isCSS(je.Key.Loader) && je.Key.FS != fsMinify && je.Key.FS != fsEsmAll {
-			k2 := je.Key
-			k2.FS = fsMinify
-			c.soloSem <- struct{}{}
-			v2 := solo(c.r, soloIn{Input: je.Input, Lang: je.Lang, Key: k2}, cpuLimitSec, hangWallSec)
-			<-c.soloSem
-			key["fast_with_minify_identifiers"] = !v2.Killed && !v2.Crashed && v2.CPUSec < cpuLimitSec/3
-			detail["minify_cpu_sec"] = v2.CPUSec
-		}
+	case v.Killed && !v.Stalled:
 		c.report("slow", key, fmt.Sprintf("input of %d bytes (%s, loader %s, flags %s) does not finish within %.0f s of CPU time (process killed at %.1f s): %q",
 			len(je.Input), je.Family, je.Key.Loader, flagSetNames[je.Key.FS], cpuLimitSec, v.CPUSec, trim(string(je.Input), 120)), detail)
 		return true
 	case v.Killed:
-		c.report("hang", key, fmt.Sprintf("input of %d bytes (%s, loader %s, flags %s) did not return within %.0f s of wall-clock time while using only %.1f s of CPU (deadlock): %q",
+		c.report("hang", key, fmt.Sprintf("input of %d bytes (%s, loader %s, flags %s) did not return and used no CPU for %.0f s (%.1f s of CPU in total: deadlock): %q",
 			len(je.Input), je.Family, je.Key.Loader, flagSetNames[je.Key.FS], hangWallSec, v.CPUSec, trim(string(je.Input), 120)), detail)
 		return true
 	case v.Crashed:
@@ -653,13 +642,13 @@ func (c *ctx) nestFamily(wg *sync.WaitGroup) []nestKind {
 	deep := 0
 	for _, nc := range cases {
 		k := hdr.Kinds[nc.K-1]
-		if nc.D < 1000 || (!r.Thorough() && nc.D < 2000) {
+		if nc.D < 2000 {
 			shallow = append(shallow, nc)
 			continue
 		}
-		// the deepest cases are run alone, CPU-measured; quick: the balanced form only, of every kind that
-		// binds a name per level and of a seeded third of the others
-		if !r.Thorough() && (nc.M != "balanced" || !(k.Binds || (int64(nc.K)+r.Seed)%3 == 0)) {
+		// the deepest cases are run alone, CPU-measured; quick: the balanced form only, of a seeded third of
+		// the kinds (the kind a=> always)
+		if !r.Thorough() && (nc.M != "balanced" || !(k.Open == "a=>" && nc.D >= 5000 || (int64(nc.K)+r.Seed)%3 == 0 && !(k.Binds && nc.D < 5000))) {
 			continue
 		}
 		text := renderNest(k, nc)
@@ -669,7 +658,7 @@ func (c *ctx) nestFamily(wg *sync.WaitGroup) []nestKind {
 		}
 		ls := loadersFor(k.Lang)
 		keys := []evalKey{{Loader: ls[0], FS: fsPlain, Mode: "transform"}}
-		if r.Thorough() || nc.D < 2000 {
+		if r.Thorough() {
 			keys = append(keys, evalKey{Loader: ls[len(ls)-1], FS: []int{fsMinify, fsLower, fsEsmAll, fsDialect}[(nc.K+nc.D)%4], Mode: "transform"})
 		}
 		if r.Thorough() {
@@ -718,8 +707,8 @@ func Run(r *core.Run) {
 		return
 	}
 	r.Set("rule", "inputs: (a) every string of <= 3 (thorough 4) tokens of ten alphabets (spec/TokensAlphabet.tla) in the frames/separators of the plan, enumerated by TLC (Tokens.tla; the last `tail` levels of the product are expanded by the harness and cross-checked); (b) TLC-simulated mutation scripts (TokensMut.tla, depth <= 6) applied to the inputs of the repository's own parser/printer/lexer/bundler tests; (c) nesting kinds x depths x closing modes (TokensNest.tla); (d) fault placements of ScanFaults.tla replayed into real builds. One evaluation = one (input, loader, flag set) through api.Transform / api.Build in a child process. A case is non-trivial iff esbuild REJECTS the input (>= 1 error diagnostic) for at least one loader under the plain flag sets, i.e. error reporting/recovery ran (the sandbox has no reference parser for TS/JSX/CSS; the rule of DESIGN.md A.6 is applied with esbuild's own verdict); distinct = distinct (plan entry, frame, separator, token tuple) / (script, seed) / (kind, depth, mode) / fault placement")
-	r.Assume("time bound: 'terminates within seconds for inputs of tens of kilobytes' is read as: one (input <= 40000 bytes, loader, flag set) uses <= 10 s of CPU time in a process of its own (measured by the parent from /proc, so machine load does not matter); a deadlock is 'no return within 120 s of wall-clock time while using less CPU than that'")
-	r.Assume("inputs inside a batch child are only screened (diagnostic texts, a 5 s wall-clock monitor, the journal of inputs in progress); every verdict about time or a crash comes from re-running the single (input, loader, flag set) alone in a fresh process")
+	r.Assume("time bound: 'terminates within seconds for inputs of tens of kilobytes' is read generously as: one (input <= 40000 bytes, loader, flag set) uses <= 30 s of CPU time in a single-threaded process of its own (GOMAXPROCS=1, CPU time read by the parent from /proc: on an idle machine such a process needs about as much CPU time as wall-clock time, and under load CPU time is inflated far less than wall-clock time); a deadlock is 'no CPU progress for 90 s'")
+	r.Assume("inputs inside a batch child are only screened (diagnostic texts, a 20 s wall-clock monitor, the journal of inputs in progress); every verdict about time or a crash comes from re-running the single (input, loader, flag set) alone in a fresh process")
 	r.Assume("no coverage feedback: enumeration and scripted mutation only (DESIGN.md section 6)")
 
 	c.pool(r.Pick(6, 8))
